@@ -32,6 +32,11 @@ func DecodeURL(logger s3log.AuditLogger, mm *metrics.Manager) fiber.Handler {
 		if err != nil {
 			return controllers.SendResponse(ctx, s3err.GetAPIError(s3err.ErrInvalidURI), &controllers.MetaOpts{Logger: logger, MetricsMng: mm})
 		}
+		// a request target that is not an absolute path (asterisk form, a
+		// bare word) names no bucket
+		if !strings.HasPrefix(unescp, "/") {
+			return controllers.SendResponse(ctx, s3err.GetAPIError(s3err.ErrInvalidURI), &controllers.MetaOpts{Logger: logger, MetricsMng: mm})
+		}
 		// the bucket and key are used as path elements below the gateway
 		// root: names that would resolve elsewhere are refused
 		bucket, key, _ := strings.Cut(strings.TrimPrefix(unescp, "/"), "/")
